@@ -13,7 +13,11 @@ import (
 
 func main() {
 	// Silence the code under test (must happen before any module is created).
-	slog.SetDefault(slog.New(slog.NewTextHandler(io.Discard, &slog.HandlerOptions{Level: slog.LevelError + 100})))
+	if os.Getenv("VERIF_SLOG") != "" {
+		slog.SetDefault(slog.New(slog.NewTextHandler(os.Stderr, &slog.HandlerOptions{Level: slog.LevelDebug})))
+	} else {
+		slog.SetDefault(slog.New(slog.NewTextHandler(io.Discard, &slog.HandlerOptions{Level: slog.LevelError + 100})))
+	}
 
 	if len(os.Args) < 2 {
 		usage()
